@@ -1,16 +1,19 @@
 mod budget;
+mod codec;
 mod commitorder;
 mod crash;
 mod formats;
 mod freelist;
 mod gcommit;
 mod gcommit_api;
+mod hnsw;
 mod joinobs;
 mod plock;
 mod relx;
 mod sched;
 mod sqlrun;
 mod util;
+mod vector;
 mod wal;
 
 fn main() {
@@ -28,6 +31,11 @@ fn main() {
         "freelist-replay" => freelist::replay(&args),
         "gc-replay" => gcommit::replay(&args),
         "sql-run" => sqlrun::run(&args),
+        "varint-run" | "key-run" => codec::run(argv[1].as_str(), &args),
+        "vector-kernels" => vector::run(&args),
+        "hnsw-replay" => hnsw::replay(&args),
+        "hnsw-one" => hnsw::one(&args),
+        "sq8-cases" => hnsw::sq8(&args),
         "record-run" | "jsonb-run" | "spill-run" => formats::run(argv[1].as_str(), &args),
         "rel-run" => relx::run(&args),
         "join-obs" => joinobs::run(&args),
